@@ -83,7 +83,7 @@ func ownerReassemble(raw [][]byte) (got []kv, err error, hung bool) {
 			if a.typ != 69 {
 				return rec.got, fmt.Errorf("message %d answered with type %d: %v", i, a.typ, a.resp), false
 			}
-		case <-time.After(60 * time.Second):
+		case <-time.After(30 * time.Second):
 			return nil, nil, true
 		}
 	}
@@ -115,10 +115,15 @@ func ownerSide(thorough bool) {
 			return 10
 		}},
 	}
+	hangs := 0
 	for n := 1; n <= maxLen; n++ {
 		for code := 0; code < 1<<n; code++ {
 			for _, pf := range profiles {
 				for _, mtu := range []uint16{1300, 256} {
+					if hangs >= 2 {
+						r.Capped("owner-side layer stopped after two hangs of the owner responder (each is reported)")
+						return
+					}
 					s := script{mtu: mtu}
 					for i := 0; i < n; i++ {
 						name := "a"
@@ -147,7 +152,8 @@ func ownerSide(thorough bool) {
 					want := reference(s)
 					switch {
 					case hung:
-						r.Violation("owner-hangs", fmt.Sprintf("%s [owner-side, %s]: TO2Server.Respond(68) did not return within 60 s for one of the %d messages the device sent", s, pf.name, len(res.raw)), repl)
+						hangs++
+						r.Violation("owner-hangs", fmt.Sprintf("%s [owner-side, %s]: TO2Server.Respond(68) did not return within 30 s for one of the %d messages the device sent", s, pf.name, len(res.raw)), repl)
 					case err != nil:
 						r.Violation("owner-rejects", fmt.Sprintf("%s [owner-side, %s]: %v", s, pf.name, err), repl)
 					case !same(got, want):
